@@ -30,21 +30,24 @@ func c18LimitInterp(t *testing.T, c c18Case, timed bool) kit.Verdict {
 	v := c18NewV()
 	c18CaseClasses(v, c)
 	v.class(fmt.Sprintf("n=%d", c.N))
-	log, res := c18PlayRounds(t, c, !timed, func(clk *c18Clock, log *c18Log) (func(g, i int, op c18Op), func()) {
-		var lim c18Limiter
-		var plain syncx.Limit
-		var tl syncx.TimeoutLimit
-		if timed {
-			tl = syncx.NewTimeoutLimit(c.N)
-			lim = tl
-		} else {
-			plain = syncx.NewLimit(c.N)
-			lim = plain
+	full, res := c18PlayRounds(t, c, !timed, func(clk *c18Clock, log *c18Log) (func(g, i int, op c18Op), func()) {
+		// two limits of the same size live side by side; op.M picks one
+		lims := make([]c18Limiter, c18Inst)
+		plains := make([]syncx.Limit, c18Inst)
+		tls := make([]syncx.TimeoutLimit, c18Inst)
+		for m := 0; m < c18Inst; m++ {
+			if timed {
+				tls[m] = syncx.NewTimeoutLimit(c.N)
+				lims[m] = tls[m]
+			} else {
+				plains[m] = syncx.NewLimit(c.N)
+				lims[m] = plains[m]
+			}
 		}
 		ret := func(g, i int, op c18Op, sub string) {
 			ev := c18Ev{G: g, I: i, Op: op, Sub: sub}
 			ev.Inv = clk.now()
-			err := lim.Return()
+			err := lims[op.M].Return()
 			ev.Ret = clk.now()
 			ev.OK = err == nil
 			if err != nil && err != syncx.ErrLimitReturn {
@@ -70,13 +73,13 @@ func c18LimitInterp(t *testing.T, c c18Case, timed bool) kit.Verdict {
 				ev := c18Ev{G: g, I: i, Op: op, Sub: "borrow"}
 				ev.Inv = clk.now()
 				if timed {
-					err := tl.Borrow(time.Duration(op.A) * c18ms)
+					err := tls[op.M].Borrow(time.Duration(op.A) * c18ms)
 					ev.OK = err == nil
 					if err != nil && err != syncx.ErrTimeout {
 						ev.Err = -1
 					}
 				} else {
-					plain.Borrow()
+					plains[op.M].Borrow()
 					ev.OK = true
 				}
 				ev.Ret = clk.now()
@@ -87,7 +90,7 @@ func c18LimitInterp(t *testing.T, c c18Case, timed bool) kit.Verdict {
 			case "try":
 				ev := c18Ev{G: g, I: i, Op: op, Sub: "try"}
 				ev.Inv = clk.now()
-				ev.OK = lim.TryBorrow()
+				ev.OK = lims[op.M].TryBorrow()
 				ev.Ret = clk.now()
 				log.ev(ev)
 				if ev.OK {
@@ -99,9 +102,18 @@ func c18LimitInterp(t *testing.T, c c18Case, timed bool) kit.Verdict {
 		}, nil
 	})
 
+	// every instance is judged on its own history against its own limit
+	for inst := 0; inst < c18Inst; inst++ {
+	log := full.inst(inst)
+	if len(log.evs) == 0 {
+		continue
+	}
 	what := "limit"
 	if timed {
 		what = "timeout-limit"
+	}
+	if inst > 0 {
+		what += fmt.Sprintf("[instance %d]", inst)
 	}
 	// lower bound on outstanding borrows: acquired for sure once the borrow has
 	// returned, possibly released as soon as a successful Return was invoked.
@@ -211,6 +223,7 @@ func c18LimitInterp(t *testing.T, c c18Case, timed bool) kit.Verdict {
 			return true, cnt
 		},
 	}, pops)
+	}
 	return v.done(res)
 }
 
@@ -274,6 +287,7 @@ func c18JudgeWakeup(v *c18V, log *c18Log, c c18Case) {
 func c18LimitGen(timed bool) func(rt *rapid.T) c18Case {
 	return func(rt *rapid.T) c18Case {
 		c := c18Case{N: rapid.SampledFrom([]int{1, 1, 2, 2, 3}).Draw(rt, "n")}
+		defer func() { c18DrawInstances(rt, c.Gs) }()
 		c.Gs = c18GenGs(rt, 4, func(rt *rapid.T, burst bool) c18Op {
 			op := c18Op{K: rapid.SampledFrom([]string{"borrow", "borrow", "borrow", "try", "try", "ret"}).Draw(rt, "k")}
 			if op.K != "ret" {
